@@ -312,6 +312,11 @@ class RainbowDQN(RLAlgorithm):
             # Index the target q_dist to select the distributions corresponding to next_actions
             target_q_dist = target_q_dist[range(self.batch_size), next_actions]
 
+            # The network clamps its softmax output away from zero, so the distribution does not
+            # sum to one exactly: renormalise, otherwise the mass of the projected target - and
+            # with it the loss of a terminal transition - depends on the next observation
+            target_q_dist = target_q_dist / target_q_dist.sum(dim=1, keepdim=True)
+
             # Determine the target z values
             t_z = rewards + (1 - dones) * gamma * self.support
             t_z = t_z.clamp(min=self.v_min, max=self.v_max)
